@@ -137,6 +137,14 @@ def parse_unit(path):
             if "assume" in iopt.split():
                 # modular reuse: the included unit's functions are verified in their own unit; here only their
                 # contracts are used (bodies elided, T5) - recorded as "contract proved in unit <name>"
+                for n_e, ent in enumerate(sub.entries):
+                    if ent[0] == "raw" and not str(ent[2]).startswith("prelude:"):
+                        # lemmas written in the included unit are proved there; here they are used like the imported contracts
+                        # (re-proving every lemma in every including unit made an unrelated unit hit the resource limit)
+                        txt = re.sub(r"(?m)^(?<!external_body\]\n)(pub proof fn )",
+                                     "#[verifier::external_body] // lemma proved in unit " + sub.name + "\n\\1", ent[1])
+                        txt = txt.replace("#[verifier::external_body]\n#[verifier::external_body] // lemma proved in unit " + sub.name + "\n", "#[verifier::external_body]\n")
+                        sub.entries[n_e] = (ent[0], txt) + tuple(ent[2:])
                 for ent in sub.entries:
                     if ent[0] == "fn":
                         ent[1].opts["external_body"] = True
